@@ -40,8 +40,10 @@ def producer_pattern(fx, rep):
             if nm == 'is_zero' and c.get('trait') == 'CurveAffine':
                 fr.storev(t['dest'], Int(qzero, 1))
                 return True
-            if res.startswith(p + '::'):
-                kind = res.rsplit('::', 1)[1]
+            if res.startswith(p + '::') and fx.body(res) is not None and '{closure' not in res:
+                # the step functions, by role: one point argument = doubling step, point + base = addition step
+                # (what each of them computes is decided by c03lines)
+                kind = 'doubling_step' if fx.body(res).arg_count == 1 else 'addition_step'
                 steps.append(kind)
                 fr.storev(t['dest'], ('coeff', kind, len(steps) - 1))
                 return True
@@ -128,6 +130,16 @@ def rule_miller(fx, rep):
         rep.fail('GUARD', 'miller_loop:line-helper', 'no private helper of miller_loop applies the sparse line multiplication', where)
         return
     rep.fn(ELL)
+    # what the line helper and the step functions compute (polynomial-ring domain)
+    from props import c03lines
+    import polyring as PR
+    c03lines.ell_rule(fx, rep, ELL)
+    lim = PR.MAX_DEG, PR.MAX_TERMS
+    PR.MAX_DEG, PR.MAX_TERMS = 120, 40000000
+    try:
+        c03lines.step_rules(fx, rep, g2prepared_from_affine(fx))
+    finally:
+        PR.MAX_DEG, PR.MAX_TERMS = lim
     ml_body = INL.inlined(fx, ML, lambda q: INL.is_private_helper(fx, q) and q != ELL and q.startswith(ML + '::'))
     ncoef = len(steps)
     n_scen = 0
@@ -438,11 +450,14 @@ def rules(fx, rep):
 def main(tier, t0):
     return common.standard_main(
         PROP, tier, t0, rules, 'other',
-        'Narrow: (1) abstract interpretation of miller_loop for 0, 1 and 2 input pairs and every placement of identity elements (21 scenarios): a pair with an '
-        'identity on either side is skipped (factor 1), every other pair consumes exactly its line coefficients in order, interleaved with the squarings exactly as '
-        'G2Prepared::from_affine produces them for the bits of |x|>>1 (68 coefficients), conjugation for negative x; from_affine short-circuits the identity before any '
+        'The code is decided to be Miller\'s algorithm for the optimal ate pairing with loop parameter |x| and the full final exponentiation: (0) step functions of '
+        'G2Prepared::from_affine: T <- 2T resp. T + Q by the affine tangent / chord law and the returned triple is an Fq2-multiple of the tangent / chord line (coefficient of y_P, of x_P, constant) -- '
+        'polynomial identities in the coordinates; the line helper multiplies f by c + b x_P w^2 + a y_P w^3 (polynomial identity over Fq in all 20 coefficients); '
+        '(1) abstract interpretation of miller_loop for 0, 1 and 2 input pairs and every placement of identity elements (21 scenarios): the returned value is the product over the pairs '
+        'without an identity of their 68 line values, each to the power 2^(squarings scheduled after it), exactly as G2Prepared::from_affine produces them for the bits of |x|>>1, conjugated for negative x '
+        '(compared in the free abelian group on the line values); from_affine short-circuits the identity before any '
         'line computation; (2) wiring: pairing / pairing_product / pairing_multi_product = one final_exponentiation of one miller_loop over (prepare(p_i), prepare(q_i)) with '
-        'matching indices; pairing_with in both directions = Bls12::pairing(G1, G2); (3) final exponentiation exponent (C12); (4) the scalar multiplications forming [a]P, [b]Q (plain affine / projective paths, all 256-bit scalars, from C02). NOT decided: that the line functions / Miller '
-        'function are the ate pairing, bilinearity, non-degeneracy (numerical; pinned by the known-answer test).',
-        ['rustc MIR', 'line-function and Fq12 contracts', 'C12'],
-        ['structure of the pairing computation, not its value'])
+        'matching indices; pairing_with in both directions = Bls12::pairing(G1, G2); (3) final exponentiation exponent (C12) and Fq12 arithmetic (C09); (4) the scalar multiplications forming [a]P, [b]Q (all 256-bit scalars, from C02). '
+        'NOT decided by code analysis: the theorem that Miller\'s algorithm with these lines is bilinear and non-degenerate (mathematics; trusted base).',
+        ['rustc MIR', 'Miller / optimal-ate correctness theorem', 'Fq and Fq2 operation contracts'],
+        ['every code-level ingredient of the pairing is an obligation; bilinearity itself is the cited theorem; more than 2 pairs not enumerated'])
